@@ -163,6 +163,7 @@ Proof.
     destruct (func_info P f) as [fi|]; [|discriminate].
     destruct (fi_native fi).
     + destruct (find_native (p_natives P) f) as [nt|]; [|discriminate].
+      destruct (n_func nt); cbn [negb] in H; [|discriminate].
       destruct (_ <? nargs); [discriminate | congruence].
     + destruct (_ <? nargs); [discriminate | congruence].
   - assert (s' = s); [|subst; exact Hb].
@@ -249,7 +250,8 @@ Proof.
   - exact (record_var_not_toomany _ _ _ _ E).
   - destruct (match lookup_var (st_vars s) cur f with Some (_, _, vf) => negb (is_empty vf) | None => false end); [discriminate|].
     destruct (func_info P f) as [fi|]; [|discriminate]. destruct (fi_native fi).
-    + destruct (find_native (p_natives P) f); [|discriminate]. destruct (_ <? n); discriminate.
+    + destruct (find_native (p_natives P) f) as [nt|]; [|discriminate].
+      destruct (n_func nt); cbn [negb] in E; [|discriminate]. destruct (_ <? n); discriminate.
     + destruct (_ <? n); discriminate.
   - destruct (func_info P f) as [fi|]; [|discriminate]. destruct (fi_native fi); [discriminate|].
     destruct (nth_error (fi_params fi) i); [|discriminate]. destruct (get_or_unknown _ _); discriminate.
